@@ -157,7 +157,8 @@ fn toks(e: &Expr, style: Style, conv: &Conv) -> Vec<Tok> {
         Expr::Sign(s, x) => {
             let mut out = Vec::new();
             let xt = toks(x, style, conv);
-            let inner_needs = !matches!(**x, Expr::Lit(..));
+            // a chain of detached signs is written without parentheses: "- - 7"
+            let inner_needs = !matches!(**x, Expr::Lit(..) | Expr::Sign(Sign::NegDetached, _) | Expr::Sign(Sign::PosDetached, _));
             match s {
                 Sign::NegAttached => out.push(Tok::Glue('-')),
                 Sign::NegDetached => out.push(Tok::Op('-')),
